@@ -42,9 +42,9 @@ CLOCKS = ["260102030405", "2026010203040567", "2026-01-02T03:04:05.670000+00:00"
 T = lambda s: "t" + hexs(s)  # noqa: E731
 SVIDS = ["n1001", "n1002", "n1003", "n1004", "n1005", "n30", "n31", T("sv-t"), "n99", T("zz"), "n30.30", "n"]
 SVID_W = [3, 2, 2, 4, 4, 5, 3, 3, 2, 1, 1, 1]
-ECIDS = ["n1", "n2", "n30", "n31", T("ec-f"), "n32", "n33", "n99", T("zz"), "n30.30", "n"]
-ECID_W = [4, 5, 6, 4, 5, 5, 4, 2, 1, 1, 1]
-ECID_TAME = [4, 5, 6, 4, 5, 5, 4, 1, 0, 0, 0]
+ECIDS = ["n1", "n2", "n30", "n31", T("ec-f"), "n32", "n33", "n34", "n35", "n36", "n99", T("zz"), "n30.30", "n"]
+ECID_W = [4, 5, 6, 4, 5, 5, 4, 3, 5, 5, 2, 1, 1, 1]
+ECID_TAME = [4, 5, 6, 4, 5, 5, 4, 3, 5, 5, 1, 0, 0, 0]
 ALIDS = ["n7", "n8", "n99", "n7.7"]
 # (id, name, min, max, default, unit, value_type, int-typed)
 EC_DEFS = [("n1", "EstablishCommunicationsTimeout", 10, 120, 10, "sec", None, True),
@@ -53,9 +53,12 @@ EC_DEFS = [("n1", "EstablishCommunicationsTimeout", 10, 120, 10, "sec", None, Tr
            ("n31", "ec31", -5, 5, 0, "mm", V.I4, True),
            (T("ec-f"), "ecf", -1.5, 1.5, 0.0, "V", V.F8, False),
            ("n32", "ec32", -100, 0, -1, "C", V.I4, True),       # declared maximum exactly 0 (a falsy limit), negative minimum
-           ("n33", "ec33", 0, 0, 0, "", V.U4, True)]            # minimum == maximum == 0
+           ("n33", "ec33", 0, 0, 0, "", V.U4, True),            # minimum == maximum == 0
+           ("n34", "ec34", None, None, 0.0, "", V.F8, False),   # no limits at all
+           ("n35", "ec35", 0, None, 5, "", V.I4, True),         # only a minimum (0)
+           ("n36", "ec36", None, 0, -5, "", V.I4, True)]        # only a maximum (0)
 # configuration B (direct oracle only, the Lean model has no constants without limits): A plus a constant with min = max = None
-EC_DEFS_B = EC_DEFS + [("n34", "ec34", None, None, 0.0, "", V.F8, False)]
+EC_DEFS_B = EC_DEFS
 ACTIVE = [EC_DEFS]
 
 
@@ -70,7 +73,9 @@ def cnum(x) -> str:
         return "i" + str(int(x))
     if isinstance(x, int):
         return "i" + str(x)
-    return cfloat(x)
+    if isinstance(x, float):
+        return cfloat(x)
+    return "o:" + type(x).__name__        # a non-number got stored in a constant
 
 
 def weighted(rng, xs, ws):
@@ -90,7 +95,13 @@ def pykey(i: str):
 # ---------------------------------------------------------------------------------------------- generation
 def gen_ecv(rng, ecid: str) -> str:
     d = next((e for e in defs() if e[0] == ecid), None)
-    lo, hi = (d[2], d[3]) if d and d[2] is not None else (-10, 10)
+    lo, hi = (d[2], d[3]) if d else (0, 10)
+    if lo is None and hi is None:
+        lo, hi = -10, 10
+    elif lo is None:
+        lo = hi - 20          # candidates around the declared side, and far beyond both
+    elif hi is None:
+        hi = lo + 20
     k = rng.below(100)
     if k < 26:
         return cnum(rng.range(math.ceil(lo), math.floor(hi)))
@@ -111,12 +122,12 @@ def gen_ecv(rng, ecid: str) -> str:
 
 
 def ecids():
-    return ECIDS if defs() is EC_DEFS else ["n34"] + ECIDS
+    return ECIDS
 
 
 def ecid_w(tame=False):
     w = ECID_TAME if tame else ECID_W
-    return w if defs() is EC_DEFS else [8] + w
+    return w
 
 
 def gen_op(rng, wild: bool) -> str:
@@ -144,7 +155,7 @@ def gen_op(rng, wild: bool) -> str:
             ps.append(e + "=" + v)
         return "E15:" + ",".join(ps)
     if k < 74:
-        return f"A3:{rng.choice([128, 128, 128, 128, 128, 0, 0, 1, 255])}:" + weighted(rng, ALIDS, [5, 5, 2, 1 if wild else 0])
+        return f"A3:{rng.choice([128, 128, 128, 128, 0, 0, rng.below(256), rng.below(256), rng.choice([1, 127, 129, 255, 0x81, 0xC0])])}:" + weighted(rng, ALIDS, [5, 5, 2, 1 if wild else 0])
     if k < 80:
         return "A5:" + ",".join(weighted(rng, ALIDS, [5, 5, 1 if wild else 0, 1 if wild else 0]) for _ in range(rng.choice([0, 1, 2, 3])))
     if k < 84:
@@ -234,7 +245,19 @@ class Run:
                 sv.value = int(num) / (1 << int(kk))
             return "-"
         head, *rest = op.split(":")
-        ids = [self.item(x) for x in rest[0].split(",")] if rest and rest[0] and head not in ("E15", "A3", "AS", "AC", "ASN", "ACN") else []
+        self.nops = getattr(self, "nops", 0) + 1
+        raw = (self.salt + self.nops) % 3 != 0     # two thirds of the id-list / S5F3 requests come from the harness's own E5 encoder
+        if rest and rest[0] and head not in ("E15", "A3", "AS", "AC", "ASN", "ACN"):
+            if raw:
+                parts = []
+                for x in rest[0].split(","):
+                    self.nform += 1
+                    parts.append(gemlib.enc_id(parse_id(x), self.salt + 5 * self.nform))
+                ids = gemlib.enc_item("L", parts, self.salt + self.nform)
+            else:
+                ids = [self.item(x) for x in rest[0].split(",")]
+        else:
+            ids = gemlib.enc_item("L", [], self.salt + self.nops) if raw and head != "A7" else []
         if head in ("S3", "E13"):
             s, f, body = eq.request(*((1, 3) if head == "S3" else (2, 13)), ids, self.direct)
             return "x" if f == 0 else "v[" + ",".join(cval_item(x) for x in body[1]) + "]"
@@ -255,7 +278,13 @@ class Run:
             s, f, body = eq.request(2, 15, req, self.direct)
             return "x" if f == 0 else "a" + str(body[1][0])
         if head == "A3":
-            s, f, body = eq.request(5, 3, {"ALED": int(rest[0]), "ALID": self.item(rest[1])}, self.direct)
+            if raw:
+                self.nform += 1
+                req3 = gemlib.enc_item("L", [gemlib.enc_item("B", [int(rest[0])], self.nform),
+                                            gemlib.enc_id(parse_id(rest[1]), self.salt + 5 * self.nform)], self.salt + self.nform)
+            else:
+                req3 = {"ALED": int(rest[0]), "ALID": self.item(rest[1])}
+            s, f, body = eq.request(5, 3, req3, self.direct)
             return "x" if f == 0 else "a" + str(body[1][0])
         if head == "A5":
             s, f, body = eq.request(5, 5, ids, self.direct)
@@ -364,7 +393,10 @@ class Ref:
             return "l[" + ";".join(self.row(i) for i in want) + "]"
         if head == "A3":
             if rest[1] in self.al:
-                self.al[rest[1]][0] = int(rest[0]) == 128
+                if int(rest[0]) in (0, 128):
+                    self.al[rest[1]][0] = int(rest[0]) == 128
+                else:
+                    self.al[rest[1]][0] = None      # E5 only defines bit 8; what 1..127 / 129..255 do is not pinned: taken from the equipment
                 return "a0"
             return None
         if head in ("AS", "AC", "ASN", "ACN"):
@@ -416,7 +448,7 @@ class Ref:
             self.ect, self.tf = int(ect), int(tf)
         for d in self.defs:
             x = self.ec[d[0]]
-            if d[2] is not None and not (d[2] <= x <= d[3]):
+            if (d[2] is not None and not x >= d[2]) or (d[3] is not None and not x <= d[3]):
                 bad = bad or ("constant-outside-limits", f"after {op}: constant {d[0]} = {x!r} outside [{d[2]}, {d[3]}]")
         if not (10 <= self.ect <= 120 and 0 <= self.tf <= 2):
             bad = bad or ("constant-outside-limits", f"after {op}: timeout {self.ect} / time format {self.tf} outside the declared limits")
@@ -424,6 +456,8 @@ class Ref:
 
 
 def tok_value(tok: str):
+    if tok == "fnan" or tok.startswith("o"):     # a stored non-number is within no limits either
+        return float("nan")
     if tok == "fnan":
         return float("nan")
     if tok in ("finf", "f-inf"):
@@ -463,6 +497,10 @@ def run_history(ops, salt, direct, gen=None, cfgb=False):
                         v = (FINDING, f"{op} is answered with an abort: an integer-typed constant holds a float that S2F15 accepted")
                 elif want is not None and out != want:
                     v = ("reply-differs-from-reference", f"{op}: got {out}, reference {want}")
+            for k_, fl in ref.al.items():         # an ALED byte the text does not pin: follow what the equipment did
+                if fl[0] is None:
+                    flags = dict(e.split("=") for e in st.split("@")[1].split(";"))
+                    fl[0] = flags[k_][0] == "1"
             if v is not None and bad is None:
                 bad = (i, v[0], v[1])
             i += 1
@@ -485,7 +523,7 @@ def model_prefix(tc: bool):
     svs = "S" + ";".join([f"n1001~{hexs('Clock')}~~k~n0", f"n1002~{hexs('ControlState')}~~s~n0", f"n1003~{hexs('EventsEnabled')}~~e~n0",
                           f"n1004~{hexs('AlarmsEnabled')}~~a~n0", f"n1005~{hexs('AlarmsSet')}~~z~n0",
                           f"n30~{hexs('sv30')}~{hexs('u')}~c~n7", f"n31~{hexs('sv31')}~{hexs('K')}~c~f1/1", f"{T('sv-t')}~{hexs('svt')}~~c~{T('x')}"])
-    ecs = "E" + ";".join(f"{i}~{hexs(n)}~{cnum(lo)}~{cnum(hi)}~{cnum(df)}~{hexs(u)}~{'i' if it else 'f'}~{cnum(df)}" for i, n, lo, hi, df, u, _vt, it in EC_DEFS)
+    ecs = "E" + ";".join(f"{i}~{hexs(n)}~{cnum(lo) if lo is not None else '-'}~{cnum(hi) if hi is not None else '-'}~{cnum(df)}~{hexs(u)}~{'i' if it else 'f'}~{cnum(df)}" for i, n, lo, hi, df, u, _vt, it in EC_DEFS)
     als = "A" + ";".join(f"{i}~{c}~{hexs(t)}~0~0" for i, c, t in AL_DEFS)
     return f"gemtab run {env} {svs} {ecs} {als}"
 
@@ -493,7 +531,7 @@ def model_prefix(tc: bool):
 def is_finding_case(ops) -> bool:
     """the recorded finding: an accepted S2F15 carries a float for an integer-typed constant (30 or 31), a later S2F13 asks for it"""
     for j, op in enumerate(ops):
-        if op.startswith("E15:") and any(p.split("=")[0] in ("n30", "n31", "n32", "n33") and p.split("=")[1].startswith("f") for p in op[4:].split(",")):
+        if op.startswith("E15:") and any(p.split("=")[0] in ("n30", "n31", "n32", "n33", "n35", "n36") and p.split("=")[1].startswith("f") for p in op[4:].split(",")):
             if any(o.startswith("E13:") for o in ops[j + 1:]):
                 return True
     return False
@@ -538,12 +576,18 @@ def main():
         for ops in corpus:
             cases.append((ops, 0, False, None, False))
             cases.append((ops, 5, True, None, False))
-        cases.append((["E15:n34=i1000000", "E15:n34=f-5/1,n32=i1", "E13:n34,n32", "E29:n34", "E15:n34=i0,n33=i0", "E13:"], 2, False, None, True))
+        corpus2 = [["E15:n34=i1000000", "E15:n34=f-5/1,n32=i1", "E13:n34,n32", "E29:n34", "E15:n34=i0,n33=i0", "E13:"],
+                   # one-sided limits: the declared side is enforced, the other is open; all-or-none with a second constant
+                   ["E15:n35=i1000000", "E15:n35=i-1", "E15:n30=i7,n35=i-1", "E15:n35=i0", "E15:n36=i1", "E15:n31=i2,n36=i1", "E15:n36=i-1000000",
+                    "E15:n36=i0", "E13:n35,n36,n30,n31", "E29:n35,n36,n34", "E15:n35=fnan", "E15:n36=fnan", "E15:n35=o", "E13:"]]
+        for ops in corpus2:
+            cases.append((ops, 2, False, None, False))
+            cases.append((ops, 7, True, None, False))
         n_hist = 2000 if a.tier == "thorough" else 600 if a.search else 400
         max_len = 40 if a.tier == "thorough" else 30 if a.search else 12
         for i in range(n_hist):
             n = rng.range(1, max_len) if rng.chance(1, 3) else max_len
-            cases.append(([], rng.below(1000), not rng.chance(1, 3), (rng.fork(f"h{i}"), n, rng.chance(1, 4)), i % 8 == 7))
+            cases.append(([], rng.below(1000), not rng.chance(1, 3), (rng.fork(f"h{i}"), n, rng.chance(1, 4)), False))
 
     lines, impls, metas = [], [], []
     seen_finding = False
